@@ -60,6 +60,17 @@ theorem zipWith_map_map {α β γ δ ε : Type} (op : γ → δ → ε) (f : α 
   | _ :: _, [] => by simp
   | a :: l, b :: l' => by simp [zipWith_map_map op f g l l']
 
+/-- zipping a table indexed by pairs with a table indexed by the first components -/
+theorem zipWith_zip_fst {α β γ δ ε : Type} (op : γ → δ → ε) (F : α × β → γ) (G : α → δ) : ∀ (l : List α) (l' : List β),
+    l.length = l'.length →
+    List.zipWith op ((l.zip l').map F) (l.map G) = (l.zip l').map fun p => op (F p) (G p.1)
+  | [], [], _ => rfl
+  | [], _ :: _, h => by simp at h
+  | _ :: _, [], h => by simp at h
+  | a :: l, b :: l', h => by
+    have ih := zipWith_zip_fst op F G l l' (by simpa using h)
+    simp only [List.zip_cons_cons, List.map_cons, List.zipWith_cons_cons, ih]
+
 theorem zip_self {α : Type} : ∀ l : List α, List.zip l l = l.map fun r => (r, r)
   | [] => rfl
   | a :: l => by simp [zip_self l]
